@@ -225,8 +225,9 @@ def run(ctx: Context, rep) -> None:
     # behind the helper's back: same rule as C02.borrow)
     from sa.rules.c02 import check_borrow, stream_scope
     check_borrow(ctx, rep, "C12.borrow", stream_scope(ctx)[1])
-
-
+    # nothing read from the dataset's files / the environment is memoised
+    from sa.rules import shared as _shm
+    _shm.check_no_memo(ctx, rep, "C12.memo")
 
 def check_select(ctx: Context, rep, sel) -> None:
     cfg = ctx.cfg(sel)
